@@ -1,28 +1,15 @@
 /-
-  Certificate obligations, parts 56..63 of 64 of the `current` client system (kernel evaluation; 8 modules
-  so that lake checks them in parallel; small parts keep the kernel's memory small).
-  Assembled in `Lemmas/CliCert.lean`.
+  Certificate obligations, parts 14..15 of 16 of the `current` client system (kernel evaluation; 8 modules
+  so that lake checks them in parallel). Assembled in `Lemmas/CliCert.lean`.
 -/
 import KmipModel.Model.CliConn
 import KmipModel.Gen.CertCliConn
 namespace Kmip.CliCert
 open Kmip.CliLts Kmip.CliConn Kmip.Gen.CertCliConn
 
-theorem cuClosed56 : partClosed (sys current) codec certCurrent cuP56 = true := by decide +kernel
-theorem cuSafe56 : partSafe codec (badPartial current) cuP56 = true := by decide +kernel
-theorem cuClosed57 : partClosed (sys current) codec certCurrent cuP57 = true := by decide +kernel
-theorem cuSafe57 : partSafe codec (badPartial current) cuP57 = true := by decide +kernel
-theorem cuClosed58 : partClosed (sys current) codec certCurrent cuP58 = true := by decide +kernel
-theorem cuSafe58 : partSafe codec (badPartial current) cuP58 = true := by decide +kernel
-theorem cuClosed59 : partClosed (sys current) codec certCurrent cuP59 = true := by decide +kernel
-theorem cuSafe59 : partSafe codec (badPartial current) cuP59 = true := by decide +kernel
-theorem cuClosed60 : partClosed (sys current) codec certCurrent cuP60 = true := by decide +kernel
-theorem cuSafe60 : partSafe codec (badPartial current) cuP60 = true := by decide +kernel
-theorem cuClosed61 : partClosed (sys current) codec certCurrent cuP61 = true := by decide +kernel
-theorem cuSafe61 : partSafe codec (badPartial current) cuP61 = true := by decide +kernel
-theorem cuClosed62 : partClosed (sys current) codec certCurrent cuP62 = true := by decide +kernel
-theorem cuSafe62 : partSafe codec (badPartial current) cuP62 = true := by decide +kernel
-theorem cuClosed63 : partClosed (sys current) codec certCurrent cuP63 = true := by decide +kernel
-theorem cuSafe63 : partSafe codec (badPartial current) cuP63 = true := by decide +kernel
+theorem cuClosed14 : partClosed (sys current) codec certCurrent cuP14 = true := by decide +kernel
+theorem cuSafe14 : partSafe codec (bad current) cuP14 = true := by decide +kernel
+theorem cuClosed15 : partClosed (sys current) codec certCurrent cuP15 = true := by decide +kernel
+theorem cuSafe15 : partSafe codec (bad current) cuP15 = true := by decide +kernel
 
 end Kmip.CliCert
